@@ -11,12 +11,12 @@
 //! Output lines (tab separated, strings escaped with hxlib::runner::esc):
 //!   P  prog class source
 //!   S  prog sched                 (a run starts; if the process dies the last S names the run)
-//!   R  prog sched class output value detail collections nested_losses pending_seen exposure
+//!   R  prog sched class output value detail collections nested_losses pending_seen exposure running_closure_losses
 //!   X  prog sched coll signature detail
 //!   D  prog sched coll depth,ip,op  <Coq gcq term>  <Coq observation term>
 #[cfg(vbxq_aelys_lang_verif)]
 mod imp {
-    use aelys_runtime::verif::{self, AuditFn, AuditObj};
+    use aelys_runtime::verif::{self, AuditFn, AuditFrame, AuditObj};
     use aelys_runtime::VM;
     use hxlib::runner::*;
     use hxlib::*;
@@ -39,6 +39,7 @@ mod imp {
         Nested,
         Closure,
         Mixed,
+        SelfRepl,
     }
     impl Class {
         pub fn name(self) -> &'static str {
@@ -48,6 +49,7 @@ mod imp {
                 Class::Nested => "nested",
                 Class::Closure => "closure",
                 Class::Mixed => "mixed",
+                Class::SelfRepl => "selfrepl",
             }
         }
     }
@@ -163,7 +165,64 @@ mod imp {
             }
         }
 
+        /// Programs in which the function/closure that is running becomes unreachable from every
+        /// variable while it is still running (self-replacing handlers in a global, a Vec slot, an
+        /// upvalue, a caller's local; nested two and three frames deep), then allocates, then uses its
+        /// own constants / captured variables.
+        fn selfrepl_program(&mut self) -> String {
+            let mut p: Vec<String> = Vec::new();
+            p.push("fn churn(n) {\n    let mut s = \"\"\n    let mut i = 0\n    while i < n {\n        s = s + \"x\"\n        i++\n    }\n    return s\n}".into());
+            let nt = 2 + self.rng.below(3);
+            for _ in 0..nt {
+                let k = self.fresh("");
+                let n = 1 + self.rng.below(6);
+                let lit = self.rng.pick(&LITS).to_string();
+                let calls = 2 + self.rng.below(2);
+                match self.rng.below(7) {
+                    0 => {
+                        // global slot, plain function
+                        p.push(format!("let mut h{k} = fn(a) {{\n    let nxt = fn(b) {{ return \"{lit}-later\" + b }}\n    h{k} = nxt\n    let g = churn({n})\n    return \"{lit}-first\" + a + g\n}}"));
+                        for c in 0..calls { p.push(format!("println(h{k}(\"{c}\"))")); }
+                    }
+                    1 => {
+                        // Vec slot
+                        p.push(format!("let hs{k} = Vec[]\nlet mut first{k} = fn(v, a) {{\n    let nxt = fn(w, b) {{ return \"{lit}-second\" + b }}\n    v[0] = nxt\n    let g = churn({n})\n    return \"{lit}-slot\" + a + g\n}}\nhs{k}.push(first{k})\nlet repl{k} = fn(v, a) {{ return \"unused\" }}\nfirst{k} = repl{k}"));
+                        for c in 0..calls { p.push(format!("println(hs{k}[0](hs{k}, \"{c}\"))")); }
+                    }
+                    2 => {
+                        // upvalue slot
+                        p.push(format!("fn mk{k}() {{\n    let mut h = fn() {{ return \"init\" }}\n    h = fn() {{\n        h = fn() {{ return \"{lit}-replaced\" }}\n        let mut g = \"\"\n        let mut i = 0\n        while i < {n} {{\n            g = g + \"y\"\n            i++\n        }}\n        return \"{lit}-up\" + g\n    }}\n    return fn() {{ return h() }}\n}}\nlet call{k} = mk{k}()"));
+                        for _ in 0..calls { p.push(format!("println(call{k}())")); }
+                    }
+                    3 => {
+                        // caller's local, reassigned after the call returns and while the callee's result is pending
+                        p.push(format!("fn driver{k}() {{\n    let mut f = fn(a) {{ return \"{lit}-plain\" + a }}\n    let r = f(churn({n}))\n    f = fn(a) {{ return \"{lit}-other\" + a }}\n    return r + f(churn(2))\n}}"));
+                        for _ in 0..calls { p.push(format!("println(driver{k}())")); }
+                    }
+                    4 => {
+                        // global slot, capturing closure that reinstalls itself
+                        p.push(format!("let mut cur{k} = fn(n) {{ return \"base\" }}\nfn install{k}(tag) {{\n    cur{k} = fn(n) {{\n        install{k}(tag + \"+\")\n        let g = churn(n)\n        return \"{lit}-ran:\" + tag + g\n    }}\n    return 0\n}}\ninstall{k}(\"{lit}\")"));
+                        for c in 0..calls { p.push(format!("println(cur{k}({}))", 1 + c)); }
+                    }
+                    5 => {
+                        // two self-replacing handlers nested: collection happens three frames deep
+                        p.push(format!("let mut inner{k} = fn(d) {{\n    let nxt = fn(e) {{ return \"{lit}-i2\" }}\n    inner{k} = nxt\n    return \"{lit}-i1\" + churn(d)\n}}\nlet mut outer{k} = fn(d) {{\n    let nxt = fn(e) {{ return \"{lit}-o2\" }}\n    outer{k} = nxt\n    return \"{lit}-o1\" + inner{k}(d) + churn(2)\n}}"));
+                        for _ in 0..calls { p.push(format!("println(outer{k}({n}))")); }
+                    }
+                    _ => {
+                        // one-shot initialiser that replaces itself by a named function and recurses through the slot
+                        p.push(format!("fn fb{k}(d) {{ return \"{lit}-fb\" }}\nlet mut once{k} = fn(d) {{\n    once{k} = fb{k}\n    if d > 0 {{\n        return \"{lit}-lvl\" + churn({n}) + once{k}(0)\n    }}\n    return \"zero\"\n}}\nfn wrap{k}(d) {{\n    return once{k}(d) + churn(2)\n}}"));
+                        for c in 0..calls { p.push(format!("println(wrap{k}({}))", 2 - (c % 2))); }
+                    }
+                }
+            }
+            p.join("\n")
+        }
+
         pub fn program(&mut self, cls: Class) -> String {
+            if cls == Class::SelfRepl {
+                return self.selfrepl_program();
+            }
             let mut p: Vec<String> = Vec::new();
             let mut tag_call = "mk_tag(\"-\")";
             let fns = cls == Class::FnArgs || cls == Class::Mixed;
@@ -232,6 +291,7 @@ mod imp {
     struct Pre {
         objs: Vec<AuditObj>,
         roots: Vec<usize>,
+        frames: Vec<AuditFrame>,
         free: Vec<usize>,
         nslots: usize,
         site: (usize, usize, u8),
@@ -244,6 +304,8 @@ mod imp {
         pub collections: u64,
         pub nested_losses: u64, // objects reachable only through nested-function constants that were freed
         pub pending_seen: u64,  // collections that ran while MakeClosure held an unrooted function (must stay 0)
+        pub running_closure_losses: u64, // collections that freed the closure object a live frame runs (or what only it reaches)
+        pub tag: String,
         pub exposure: u64, // collections at which some live function had heap pointers among its nested functions' constants
         pub problems: Vec<(u64, String, String)>,
         pub dumps: Vec<(u64, (usize, usize, u8), String, String)>,
@@ -347,6 +409,7 @@ mod imp {
                 self.pre = Some(Pre {
                     objs: vm.verif_heap_audit(),
                     roots: vm.verif_roots(),
+                    frames: vm.verif_frames(),
                     free,
                     nslots,
                     site: vm.verif_safepoint_site(),
@@ -381,27 +444,56 @@ mod imp {
                     }
                 }
             }
-            // (c) the statement: everything reachable from the roots through any stored reference survives
-            let reach_all = closure_from(&pre_map, &pre.roots, true);
-            let reach_direct = closure_from(&pre_map, &pre.roots, false);
+            // (c) the statement: everything the program can still reach survives.  The audit's own roots:
+            //   * what the hook verif_roots lists (a transcription of collect's loop, kept apart from it),
+            //   * the function of EVERY active frame (hook verif_frames, independent of collect),
+            //   * the closure object of every active frame (a frame only keeps a raw pointer into it).
+            let mut fn_roots: Vec<usize> = pre.roots.clone();
+            fn_roots.extend(pre.frames.iter().map(|f| f.function));
+            let mut audit_roots = fn_roots.clone();
+            audit_roots.extend(pre.frames.iter().filter_map(|f| f.closure));
+            let reach_model = closure_from(&pre_map, &pre.roots, true); // what the Coq model is asked about
+            let reach_all = closure_from(&pre_map, &audit_roots, true);
+            let reach_fn = closure_from(&pre_map, &fn_roots, true);
+            let reach_direct = closure_from(&pre_map, &fn_roots, false);
             if pre.objs.iter().any(|o| edges(o).iter().any(|e| e.2)) {
                 self.exposure += 1;
             }
+            let mut closure_loss = false;
             for &i in &reach_all {
                 if post_map.contains_key(&i) {
                     continue;
                 }
                 let k = KIND[pre_map[&i].kind as usize];
                 if reach_direct.contains(&i) {
-                    let how = if pre.roots.contains(&i) { "root" } else { "edge" };
+                    let how = if pre.roots.contains(&i) {
+                        "root"
+                    } else if pre.frames.iter().any(|f| f.function == i) {
+                        "frame-function"
+                    } else {
+                        "edge"
+                    };
                     self.problem(format!("reachable-freed:{}:{}", how, k), format!("slot {} at op {}", i, pre.site.2));
-                } else {
+                } else if reach_fn.contains(&i) {
                     // reachable only through the constants of a nested, not yet instantiated function
                     // (the defect repaired by /repo ad6fcd1)
                     self.nested_losses += 1;
                     self.problem("reachable-freed:only-via-nested-function-constant".into(),
                                  format!("slot {} ({}) at op {}", i, k, pre.site.2));
+                } else {
+                    // reachable only through the closure object that an active frame is executing
+                    closure_loss = true;
                 }
+            }
+            if closure_loss {
+                // (the defect repaired by /repo af27ef7: the closure object of a running frame was not a root)
+                self.running_closure_losses += 1;
+                self.problem("running-closure-freed".into(),
+                             format!("collection {} at op {}, frames {}", self.collections, pre.site.2, pre.frames.len()));
+            }
+            // a frame whose upvalue pointer belongs to no live closure object
+            if pre.frames.iter().any(|f| f.has_upvalues && f.closure.is_none()) {
+                self.problem("frame-upvalues-dangling".into(), format!("collection {}", self.collections));
             }
             // (d) a function object MakeClosure holds only in a local (hook pending_fn).  Since /repo
             // 9ba6d0e there is no safepoint while it is pending, so this never fires; if a safepoint
@@ -458,7 +550,7 @@ mod imp {
                 let q = format!("QCollect (mkHeap [{}] {}) {}", slots.join(";"),
                                 nl(pre.free.iter().rev().copied()), nl(pre.roots.iter().copied()));
                 let obs = format!("[{};{};{}]", nl(post.iter().map(|o| o.index)), nl(free2.iter().rev().copied()),
-                                  nl(reach_all.iter().copied()));
+                                  nl(reach_model.iter().copied()));
                 self.dumps.push((self.collections, pre.site, q, obs));
             }
         }
@@ -482,9 +574,9 @@ mod imp {
             }
         }
         let mut g = Gen::new(seed);
-        let classes = [Class::Plain, Class::FnArgs, Class::Nested, Class::Closure, Class::Mixed];
+        let classes = [Class::Plain, Class::FnArgs, Class::Nested, Class::Closure, Class::Mixed, Class::SelfRepl];
         for k in 0..nprog {
-            let cls = classes[(k % 5) as usize];
+            let cls = classes[(k % 6) as usize];
             progs.push((cls.name().to_string(), g.program(cls)));
         }
         let handle = std::thread::Builder::new().stack_size(256 << 20).spawn(move || {
@@ -499,6 +591,7 @@ mod imp {
                     let rec = Rc::new(RefCell::new(Recorder {
                         max_dumps,
                         rng: Some(Rng::new(seed ^ ((idx as u64) << 20) ^ ((gc.0 as u64) << 8) ^ gc.1)),
+                        tag: format!("{}\t{}:{}", idx, gc.0, gc.1),
                         ..Default::default()
                     }));
                     // printed before the run so that a crash of the process can be attributed
@@ -510,8 +603,8 @@ mod imp {
                     verif::gc_audit_remove();
                     let rec = rec.borrow();
                     let s = format!("{}:{}", gc.0, gc.1);
-                    println!("R\t{}\t{}\t{}\t{}\t{}\t{}\t{}\t{}\t{}\t{}", idx, s, r.class, esc(&r.output), esc(&r.value),
-                             esc(&r.detail), rec.collections, rec.nested_losses, rec.pending_seen, rec.exposure);
+                    println!("R\t{}\t{}\t{}\t{}\t{}\t{}\t{}\t{}\t{}\t{}\t{}", idx, s, r.class, esc(&r.output), esc(&r.value),
+                             esc(&r.detail), rec.collections, rec.nested_losses, rec.pending_seen, rec.exposure, rec.running_closure_losses);
                     for (c, sig, d) in &rec.problems {
                         println!("X\t{}\t{}\t{}\t{}\t{}", idx, s, c, sig, esc(d));
                     }
